@@ -218,11 +218,15 @@ func (f *recFile) Seek(o int64, w int) (int64, error) {
 func (f *recFile) Write(p []byte) (int, error) {
 	i, flt := f.r.hit(fsCall{Op: "Write", Path: f.path, Buf: append([]byte{}, p...), N: len(p)})
 	if flt {
-		if f.r.kind == "short" {
-			n := len(p) / 2
+		if f.r.kind == "short" || f.r.kind == "short1" || f.r.kind == "short4" {
+			// a short count without an error: half of the bytes, all but the last one, all but the last four
+			n := map[string]int{"short": len(p) / 2, "short1": len(p) - 1, "short4": len(p) - 4}[f.r.kind]
+			if n < 0 {
+				n = 0
+			}
 			f.File.Write(p[:n])
 			f.r.calls[i].N = n
-			f.r.calls[i].Err = "short"
+			f.r.calls[i].Err = f.r.kind
 			return n, nil
 		}
 		return 0, f.r.fail(i)
